@@ -86,9 +86,21 @@ Judge(c) ==
             IF today.used # {} /\ Agrees(c, today) THEN <<"known:" \o JoinDevs(today.used, 1, ""), class>>
             ELSE <<"violation", class>>
 
-TInit == GInit /\ l \in {i \in 1..Len(Cases) : i % Chunk = 1 \/ Chunk = 1}
+TInit == stack = <<>> /\ toks = <<>> /\ ast = <<>> /\ run = <<>> /\ LIdle /\ l \in {i \in 1..Len(Cases) : i % Chunk = 1 \/ Chunk = 1}
 TNext == /\ l <= Len(Cases)
          /\ LET j == TLCEval(Judge(Cases[l])) IN PrintT(<<"VERDICT", Cases[l].id, j[1], j[2]>>)
          /\ l % Chunk # 0
          /\ l' = l + 1 /\ UNCHANGED <<gvars, lvars>>
+\* replay of single cases (./check C13 --replay f): also print what the grammar and today's model expect
+TExplain ==
+  /\ l <= Len(Cases)
+  /\ LET c == Cases[l]
+         j == TLCEval(Judge(c))
+         ideal == TLCEval(Expect(c, {}))
+         today == TLCEval(Expect(c, AllDevs))
+     IN /\ PrintT(<<"VERDICT", c.id, j[1], j[2]>>)
+        /\ PrintT(<<"EXPECT", c.id, ToJson([grammar |-> [member |-> ideal.ok, wellformed |-> WellFormed(c, ideal), tree |-> ideal.ast],
+                                            today |-> [member |-> today.ok, tree |-> today.ast, deviations |-> today.used]])>>)
+  /\ l % Chunk # 0
+  /\ l' = l + 1 /\ UNCHANGED <<gvars, lvars>>
 =============================================================================
